@@ -65,6 +65,17 @@ ASSUMPTIONS = [
 
 NCONT, NOBJ, NKEY = 6, 4, 6
 
+# Known finding gc-marks-running-thread-tls: a collection walks the thread-local Table of every running Thread
+# object it can reach (GC_Recurse -> Thread_Mark -> Table_Mark) while the owner rehashes it.  The class
+# "main allocates while collected Thread objects of running threads are reachable" is therefore not generated.
+# Set to False once /repo is repaired.
+EXCLUDE_MAIN_GCTHR = True
+
+# the collector scans the real thread stacks: ASan must not move locals to its fake stack
+EXEC_ENV = {"ASAN_OPTIONS": "detect_leaks=0:abort_on_error=0:allocator_may_return_null=1:handle_segv=1:"
+                            "detect_stack_use_after_return=0"}
+KNOWN_KEY = "gc-marks-running-thread-tls"
+
 
 def prepare(tier):
     return {"asan": build.executor("asan", "ex_thr"), "plain": build.executor("plain", "ex_thr")}
@@ -219,7 +230,9 @@ def _case(draw, tier):
     nw = min(nw, T)
     w = [draw(_workload(nmutex, maxops, maxchurn)) for _ in range(nw)]
     main = draw(st.sampled_from([0, 0, 1]))
-    gcthr = 0 if main else draw(st.integers(0, 1))
+    gcthr = draw(st.integers(0, 1))
+    if main and EXCLUDE_MAIN_GCTHR:
+        gcthr = 0
     joins = draw(st.lists(st.tuples(st.integers(1, 96), st.integers(0, 50), st.integers(0, 2), st.integers(0, 3000),
                                     st.integers(0, 5), st.integers(0, 8), st.integers(0, 40), st.integers(0, 12)),
                           max_size=2))
@@ -339,7 +352,7 @@ _FAILED_BEFORE = [False]     # per process: has run_case already reported a fail
 
 
 def _once(ctx, case, text):
-    ex = ctx.executor(case["cfg"])
+    ex = ctx.executor(case["cfg"], env=EXEC_ENV)
     n = getattr(ex, "_c13n", 0) + 1
     fresh = n >= RECYCLE or ex.p is None
     ex._c13n = 1 if fresh else n
@@ -440,4 +453,24 @@ def extra_phase(ctx, tier, stats, sample_fn):
     return {"fails": fails, "extra": {"stress_programs": n}}
 
 
+def known_case(cfg="plain"):
+    """main (workload 0) allocates 12000 objects; 2 threads whose Thread objects were made with new() store and
+    remove 6 thread-local values 25 times.  Expected on a healthy library: digests equal.  Observed: main's
+    allocation raises ValueError (type_of: bad magic number) / ASan: out-of-bounds read in Table_Mark."""
+    tl = []
+    for r in range(25):
+        tl += ["ts %d %d" % (k, r) for k in range(NKEY)] + ["tr %d" % k for k in range(NKEY)]
+    return {"cfg": cfg, "T": 3, "main": 1, "gcthr": 1, "barrier": 0, "nmutex": 1,
+            "w": [{"ops": ["ch 300"] * 40, "ys": []}, {"ops": tl, "ys": []}, {"ops": tl, "ys": []}], "joins": [], "rep": 5}
+
+
+# The reproduction is only active when known_findings.txt lists the key (core reports an unlisted failing
+# reproduction as a VIOLATION); until then it is available as known_case() / regress-style replay file.
 KNOWN = []
+try:
+    from ..core import load_known as _lk
+    if KNOWN_KEY in _lk().get(ID, {}):
+        KNOWN = [{"key": KNOWN_KEY, "case": known_case(),
+                  "what": "a collection in one thread walks the thread-local Table of running Thread objects it can reach"}]
+except Exception:
+    KNOWN = []
